@@ -86,6 +86,11 @@ func init() {
 	ext[pk+"ScheduleMode"] = func(fr *frame, args []value) value {
 		// 0 = deterministic, 1 = decisions at hook/yield points only, 2 = every synchronisation operation
 		m := args[0].(int)
+		if Sched.hooksOnly && m != 1 {
+			// leaving hook-wait mode: nobody stays parked at a hook point
+			for Sched.releaseHookWaiter() {
+			}
+		}
 		Sched.explore = m > 0
 		Sched.hooksOnly = m == 1
 		Sched.preemptBound = args[1].(int)
